@@ -8,7 +8,12 @@ PROP = "C16"
 RULE = ("every mark graph MARKS(n) (each pair one of none,->,<-,<->,--,o-o,o->,<-o), n<=3, plus a seeded sample of MARKS(4) (150 quick / "
         "6000 thorough); on each graph every ordered pair (s,t) and every target set of 1-2 nodes not containing s, "
         "cutoff in {None,0..n} (for node targets also -1, n+1, n+3) as a Python int and as numpy.int64 / int32 / intp (expected: the model "
-        "on the integer value; negative = 0); target passed as a node, set, frozenset, generator or dict-keys view; is_semi_directed_path on every "
+        "on the integer value; negative = 0); target passed as a node, set, frozenset, generator or dict-keys view; LAZY stream: for every target set also a call whose set / "
+        "dict is edited by the caller (node added, target removed, cleared) before the generator is consumed or after its first path "
+        "- expected: the call-time targets (G itself is read lazily by HEAD's generator and is left alone); MISSING-NODE stream (1/8 of "
+        "MARKS(n), 1/5 of the random graphs): a label that is not in G from every family (int, big int, negative, str, char, 0-/2-/3-"
+        "tuple, frozenset) as source of all_semi_directed_paths / possible_descendants / possible_ancestors and (non-iterable families) "
+        "as target must raise NodeNotFound, the class HEAD raises for an int; is_semi_directed_path on every "
         "duplicate-free node sequence and on non-paths (repeats, absent node, empty); both ancestry sets of every node; seeded random "
         "MARKS graphs n<=7 and dense possibly-directed graphs n=5..7 with sampled queries. REPEAT stream (every graph n<=3 with an "
         "edge, 1/3 of the n=4 sample, 1/4 of the random ones): the PAG is built for a neighbour graph (one pair re-marked or one edge "
@@ -41,6 +46,8 @@ SPOT_N = 12
 
 # cutoff argument types: 0 Python int, 1 numpy.int64, 2 numpy.int32, 3 numpy.intp (a query's 5th field; [] = None has no type)
 CUT_TYPES = 4
+# lazy modes (6th field): 0 none; before consuming: 1 add a node, 2 remove a target, 3 clear; after the first path: 4 clear, 5 add a node
+LAZY_MODES = 5
 
 
 def all_queries(n):
@@ -60,6 +67,9 @@ def all_queries(n):
             for T in itertools.combinations(others, r):
                 for c in cuts:
                     qs.append([s, list(T), c, 1 + (len(qs) % 4), len(qs) % CUT_TYPES])  # 1 set, 2 frozenset, 3 generator, 4 dict keys
+                    # flavour U: the caller's mutable target container (a real set / the dict behind a keys view) is edited after the
+                    # call and before (or in the middle of) consuming the generator; expected: the call-time targets
+                    qs.append([s, list(T), c, (1, 4)[len(qs) % 2], 0, 1 + (len(qs) // 2) % LAZY_MODES])
     return qs
 
 
@@ -96,7 +106,8 @@ def random_queries(rng, n, nq=25, nps=40):
         else:
             T, asset = sorted(rng.sample(others, rng.choice([1, 2, 3]))), rng.choice([1, 2, 3, 4])
         c = [] if rng.random() < 0.3 else [rng.choice([rng.randint(0, n), rng.randint(-1, n + 3), n - 1, n, n + 2])]
-        qs.append([s, T, c, asset, rng.randrange(CUT_TYPES)])
+        lazy = rng.randrange(1, LAZY_MODES + 1) if asset in (1, 4) and rng.random() < 0.5 else 0
+        qs.append([s, T, c, asset, rng.randrange(CUT_TYPES), lazy])
     ps = [rng.sample(range(n), rng.randint(1, n)) for _ in range(nps)]
     return qs, ps
 
@@ -104,8 +115,11 @@ def random_queries(rng, n, nq=25, nps=40):
 def gen_cases(tier, rng):
     for n in (1, 2, 3):
         qs, ps = all_queries(n), all_probes(n)
-        for g in gr.enum_marks(n):
-            yield {"kind": "marks%d" % n, "g": g, "qs": qs, "ps": ps}
+        for i, g in enumerate(gr.enum_marks(n)):
+            c = {"kind": "marks%d" % n, "g": g, "qs": qs, "ps": ps}
+            if i % 8 == 0:
+                c["miss"] = 1          # flavour S probes: a missing node of every label family as source / target
+            yield c
     # REPEAT stream: the object is built for a neighbour graph, queried, edited in place into g, then judged (c16_util.warm_object)
     for n in (2, 3):
         qs, ps = all_queries(n), all_probes(n)
@@ -132,6 +146,8 @@ def gen_cases(tier, rng):
         g = gr.from_kinds(n, [rng.choice(kinds[1:]) if rng.random() < p_edge else "none" for _ in gr.pairs(n)])
         qs, ps = random_queries(rng, n)
         c = {"kind": "rand", "g": g, "qs": qs, "ps": ps}
+        if i % 5 == 1:
+            c["miss"] = 1
         if i % 4 == 0:
             c["rep"] = rng.randrange(1 << 30)
             c["kind"] = "rand-rep"
@@ -140,7 +156,7 @@ def gen_cases(tier, rng):
         n = rng.randint(5, 7)
         g = dense_graph(rng, n)
         qs, ps = random_queries(rng, n, nq=12, nps=30)
-        qs = [q if q[2] and q[2][0] <= 4 else [q[0], q[1], [rng.randint(1, 4)], q[3], q[4]] for q in qs] if n == 7 else qs  # bound the path count
+        qs = [q if q[2] and q[2][0] <= 4 else [q[0], q[1], [rng.randint(1, 4)]] + q[3:] for q in qs] if n == 7 else qs  # bound the path count
         c = {"kind": "dense", "g": g, "qs": qs, "ps": ps}
         if i % 4 == 0:
             c["rep"] = rng.randrange(1 << 30)
@@ -160,16 +176,51 @@ def decode(case, v):
 
 
 def as_target(T, asset, lab):
-    """target argument kinds: 0 a node, 1 set, 2 frozenset, 3 generator, 4 dict keys view"""
+    """target argument kinds: 0 a node, 1 set, 2 frozenset, 3 generator, 4 dict keys view; returns (argument, mutable container)"""
     if asset == 0:
-        return lab(T[0])
+        return lab(T[0]), None
     if asset == 2:
-        return frozenset(lab(t) for t in T)
+        return frozenset(lab(t) for t in T), None
     if asset == 3:
-        return (lab(t) for t in T)
+        return (lab(t) for t in T), None
     if asset == 4:
-        return {lab(t): None for t in T}.keys()
-    return {lab(t) for t in T}
+        d = {lab(t): None for t in T}
+        return d.keys(), d
+    st = {lab(t) for t in T}
+    return st, st
+
+
+def edit_container(box, mode, T, s, nodes, lab):
+    """what a caller may do to its own set / dict after the call"""
+    extra = [v for v in nodes if v != s and v not in T]
+    if mode in (1, 5):
+        new = lab(extra[0]) if extra else ("absent", "extra")
+        if isinstance(box, dict):
+            box[new] = None
+        else:
+            box.add(new)
+    elif mode == 2:
+        if isinstance(box, dict):
+            box.pop(lab(T[0]))
+        else:
+            box.discard(lab(T[0]))
+    else:
+        box.clear()
+
+
+def lazy_paths(f, P, src, T, cutoff, asset, lazy, s, nodes, lab):
+    arg, box = as_target(T, asset, lab)
+    gen = f(P, src, arg, cutoff=cutoff)
+    if not lazy or box is None:
+        return list(gen)
+    out = []
+    if lazy >= 4:
+        for p in gen:
+            out.append(p)
+            break
+    edit_container(box, lazy, T, s, nodes, lab)
+    out.extend(gen)
+    return out
 
 
 def as_cutoff(c, ctype):
@@ -190,8 +241,10 @@ def run_queries(case, P, lab, inv):
     for q in case["qs"]:
         s, T, c, asset = q[:4]
         cutoff = as_cutoff(c, q[4] if len(q) > 4 else 0)
+        lazy = q[5] if len(q) > 5 else 0
         try:
-            res = sorted([inv(x) for x in p] for p in all_semi_directed_paths(P, lab(s), as_target(T, asset, lab), cutoff=cutoff))
+            res = sorted([inv(x) for x in p] for p in lazy_paths(all_semi_directed_paths, P, lab(s), T, cutoff, asset, lazy, s,
+                                                                 case["g"]["V"], lab))
         except Exception as e:  # noqa
             res = "exc:" + type(e).__name__
         paths.append(res)
@@ -205,7 +258,24 @@ def run_queries(case, P, lab, inv):
     for v in case["g"]["V"]:
         desc[str(v)] = sorted(inv(x) for x in possible_descendants(P, lab(v)))
         anc[str(v)] = sorted(inv(x) for x in possible_ancestors(P, lab(v)))
-    return {"paths": paths, "is_semi": sem, "desc": desc, "anc": anc}
+    out = {"paths": paths, "is_semi": sem, "desc": desc, "anc": anc}
+    if case.get("miss") and case["g"]["V"]:
+        v0 = lab(case["g"]["V"][0])
+        err = {}
+        for fam, m in cu.MISSING.items():
+            if m in P:              # (the falsy / environment label variants may use this very label)
+                continue
+            err[fam] = [cu.exc_class(all_semi_directed_paths, P, m, v0), cu.exc_class(possible_descendants, P, m),
+                        cu.exc_class(possible_ancestors, P, m),
+                        cu.exc_class(all_semi_directed_paths, P, v0, m) if fam in cu.NON_ITERABLE else "NodeNotFound",
+                        "no-exception" if is_semi_directed_path(P, [v0, m]) is False else "not-False"]
+        out["err"] = err
+    return out
+
+
+# flavour S: what HEAD raises for a missing INT label, required for a missing label of every family
+# (source of all_semi_directed_paths, possible_descendants, possible_ancestors, non-iterable target; is_semi_directed_path: False)
+ERR_EXPECTED = ["NodeNotFound", "NodeNotFound", "NodeNotFound", "NodeNotFound", "no-exception"]
 
 
 def run_impl(case):
@@ -231,6 +301,8 @@ def compare(case, impl, model):
         return "possible_ancestors"
     if impl["mutated"]:
         return "argument-mutated"
+    if any(v != ERR_EXPECTED for v in impl.get("err", {}).values()):
+        return "missing-node-exception-class"
     return None
 
 
